@@ -178,7 +178,7 @@ def _read_block(docstring: Docstring, *, offset: int, **options: Any) -> tuple[s
 
 _RE_OB: str = r"\{"  # Opening bracket.
 _RE_CB: str = r"\}"  # Closing bracket.
-_RE_NAME: str = r"\*{0,2}[_a-z][_a-z0-9]*"
+_RE_NAME: str = r"\*{0,2}[^\W\d]\w*"  # Any Python identifier (not just ASCII ones).
 _RE_TYPE: str = r".+"
 _RE_RETURNS: Pattern = re.compile(
     rf"""
